@@ -18,7 +18,7 @@ demo() {  # compile (if C++) and run the demonstration in its directory; echo ex
     g++ -std=gnu++17 -O1 -g -fopenmp -w -DUSE_OMP -DOPENMP_ITERATOR -DOPENMP_RANGEFOR -DOPENMP_UNSIGNED -DUSE_PROGRESSBAR \
       -I$R/OpenMEEG/include -I$R/OpenMEEGMaths/include -I$B -I$B/exports -I$B/OpenMEEG -I$B/OpenMEEGMaths -isystem /usr/include/hdf5/serial \
       demo.cpp -o demo.bin -Wl,-rpath,$B/OpenMEEG:$B/OpenMEEGMaths -L$B/OpenMEEG -L$B/OpenMEEGMaths -lOpenMEEG -lOpenMEEGMaths -llapacke -lopenblas -lmatio >> $log 2>&1 || { echo 99; return; }
-    if [ "$P" = "C05" ]; then env -u OMP_NUM_THREADS timeout 900 ./demo.bin $ARGS >> $log 2>&1; else timeout 600 ./demo.bin $ARGS >> $log 2>&1; fi; echo $?
+    if [ "$P" = "C05" ] || [ -f $O/demo.threads ]; then env -u OMP_NUM_THREADS timeout 900 ./demo.bin $ARGS >> $log 2>&1; else timeout 600 ./demo.bin $ARGS >> $log 2>&1; fi; echo $?
   else
     if [ "$P" = "C05" ]; then env -u OMP_NUM_THREADS BUILD=$B REPO=$R timeout 1800 bash ./demo.sh $B >> $log 2>&1; else BUILD=$B REPO=$R timeout 900 bash ./demo.sh $B >> $log 2>&1; fi; echo $?
   fi
